@@ -22,6 +22,13 @@ theorem C17_globals_accounted :
     Generated.moduleGlobals.all (fun g => examinedGlobals.contains g) = true := by
   decide +kernel
 
+/-- every function that changes a module-level mutable object in place (item assignment or a
+    mutating method on a module-level dict / list / set of its own module, found by the AST scan of
+    the working tree) is on the examined list: a new writer of shared state breaks this obligation -/
+theorem C17_writers_accounted :
+    Generated.moduleWriters.all (fun g => examinedWriters.contains g) = true := by
+  decide +kernel
+
 /-- every call starts with empty definitions, packages, unknowns, flows, glossary; the
     rotating placeholder lists are those of the tables -/
 theorem C17_initialState_fresh (T : PTables) (o : Options) (multi : Bool) (fs : FS) :
